@@ -629,7 +629,17 @@ fn plan_has_outer_references(
         }
         LogicalPlan::Limit(node) => plan_has_outer_references(&node.input, local_tables),
         LogicalPlan::Distinct(node) => plan_has_outer_references(&node.input, local_tables),
-        LogicalPlan::SubqueryAlias(node) => plan_has_outer_references(&node.input, local_tables),
+        LogicalPlan::SubqueryAlias(node) => {
+            // The aliases defined INSIDE a derived table / CTE body are local to
+            // it: `collect_table_aliases` stops at the alias (it shadows them for
+            // the enclosing query), so add them here before looking inside.
+            // Without this, `(SELECT .. FROM s AS x WHERE x.c > 1) AS d` made
+            // `x.c` look like an outer reference: the subquery was treated as
+            // correlated and `x.c` was replaced by the outer row's column `c`.
+            let mut inner_local = local_tables.clone();
+            collect_table_aliases_recursive(&node.input, &mut inner_local);
+            plan_has_outer_references(&node.input, &inner_local)
+        }
         LogicalPlan::Scan(node) => node
             .filter
             .as_ref()
@@ -1011,7 +1021,11 @@ fn substitute_columns_in_plan(
             }))
         }
         LogicalPlan::SubqueryAlias(node) => {
-            let new_input = substitute_columns_in_plan(&node.input, column_values, local_tables)?;
+            // aliases defined inside the derived table are local to it (see
+            // plan_has_outer_references)
+            let mut inner_local = local_tables.clone();
+            collect_table_aliases_recursive(&node.input, &mut inner_local);
+            let new_input = substitute_columns_in_plan(&node.input, column_values, &inner_local)?;
             Ok(LogicalPlan::SubqueryAlias(SubqueryAliasNode {
                 input: Arc::new(new_input),
                 alias: node.alias.clone(),
